@@ -169,6 +169,9 @@ MC_BIGSTATS = {"module": "MC_BigStats", "cfg": "MC_BigStats.cfg", "workers": 1, 
 
 HIST_BIG = {"cmd": "direct", "family": "histbig", "args": {"reps": ("200", "3000")}}
 
+# Ingest.tla behaviours with chunks of 5..200 observations (the TLC generator stops at chunks of 2), built by the harness
+INGEST_LONG = {"cmd": "direct", "family": "ingestlong", "args": {}}
+
 GEN_INGEST = {"module": "Gen_Ingest", "cfg": "Gen_Ingest.cfg", "overrides": {"MaxLen": ("4", "4"), "MaxSteps": ("3", "4")}, "family": "ingest"}
 
 PROPS = {
@@ -275,7 +278,7 @@ PROPS = {
         "title": "variances are never negative and means stay within the data range",
         "mc": [MC_BIG, MC_BIGSTATS, MC_HM, MC_W, MC_C, MC_SEQ, MC_MERGE],
         "replay": [GEN_INGEST, gen_h("hist", 2, depth=("3", "4")), gen_h("hist", 3), gen_pair("Weighted", "tree", "E0:W0,E6:W1,E7:W2,E8:W0,E9:W1,EM1:W0,E14:W1,E7:W1,E14:W0", maxlen=("3", "4")), gen_pair("Weighted", "seq", "EM1:W0,EM1:W2", maxlen=("4", "5")), gen_pair("Covariance", "tree", "E6:E7,E8:E9,E9:E6,EM1:EM1,E14:E14", maxlen=("3", "4")), gen_seq(ALLM, E09 + ",EM1"), gen_tree(ALLM, "E0,E4,E6,E7,E8,E9,EM1,E14"), gen_hist(ALLM, "E6,E7,E8,E9,EM1")],
-        "direct": [long_job("Mean,Variance,Skewness,Kurtosis,Moments4,M6,M10", "E0,E4,E6,E7,E8,E9,E10"), HIST_BIG],
+        "direct": [INGEST_LONG, long_job("Mean,Variance,Skewness,Kurtosis,Moments4,M6,M10", "E0,E4,E6,E7,E8,E9,E10"), HIST_BIG],
         "apalache": [{"module": "Ind_Variance", "skip": (True, False)}, {"module": "Ind_EffLen", "skip": (True, False)}],
         "trace": [tr_pairs(("200", "1000")), tr_mom(("250", "1000")), tr_h(3, n=("5000", "20000"))],
         "rule": "all behaviours of C01/C02 replayed under embeddings without any conditioning bound (one-ulp spreads at 2^52, "
@@ -309,6 +312,7 @@ PROPS = {
                    gen_pair("Weighted", "tree", "E0:W0,E5:W2", maxlen=("4", "5"), wide=True),
                    gen_pair("Weighted", "hist", "E0:W0,E0:WX", maxlen="3", depth=("4", "5"), wide=True)],
         "trace": [tr_pairs(("250", "1000"))],
+        "direct": [INGEST_LONG],
         "rule": "every sequence of (value, weight) pairs over {-1,0,2} x {0,1,3} up to the length bound (zero weights at every "
                 "position, first included), every chunking into <= 3 chunks and merge tree, arbitrary histories; "
                 "WeightedMean and WeightedMeanWithError; value embeddings x weight scales 2^-19, 1, 2^18; the same again over "
@@ -326,6 +330,7 @@ PROPS = {
                    gen_pair("Covariance", "hist", "E0:E0,E3:E5", depth=("4", "4"))],
         "apalache": [{"module": "Ind_Covariance", "skip": (True, False)}],
         "trace": [tr_pairs(("250", "1000"))],
+        "direct": [INGEST_LONG],
         "rule": "every sequence of pairs over {-1,0,2}^2 up to the length bound (collinear, anti-collinear, partially correlated), "
                 "every chunking and merge tree, arbitrary histories; independent embeddings of x and y; a twin object fed the "
                 "swapped pairs is checked against the swapped specification values",
@@ -440,6 +445,7 @@ PROPS = {
         "mc": [],
         "replay": [GEN_INGEST,
                    gen_q("small", "E0"), gen_mm("seq", maxlen=("4", "5"))],
+        "direct": [INGEST_LONG],
         "rule": "every behaviour of Ingest.tla: start by new / default / collect (value, reference), then any mix of extend (value, "
                 "reference, empty chunks included) and add, over every sequence up to the length bound; executed through the real "
                 "FromIterator / Extend impls of 7 moment types, Min, Max, WeightedMean, WeightedMeanWithError, Covariance and four "
